@@ -93,7 +93,7 @@ def _mk(role, exch, k, sched=None, net=None, t=None, dribble=False, size=300, ca
     return sc
 
 
-def _flood_after_abort(t, gap, sched=None, pdu="echo_rq"):
+def _flood_after_abort(t, gap, sched=None, pdu="echo_rq", role="acceptor"):
     """`pdu`: what the peer floods with once the local side has aborted - P-DATA (ignored in Sta13, AA-6), or
     A-ASSOCIATE-RQ / unrecognised PDUs (each answered with another A-ABORT, AA-7)."""
     ae = {"acse": t, "dimse": 4 * t, "network": 8 * t, "connection": t, "echo_act": "abort"}
@@ -103,7 +103,15 @@ def _flood_after_abort(t, gap, sched=None, pdu="echo_rq"):
         fl["type"] = 0xFF
     peer = [{"do": "send", "pdu": "rq"}, {"do": "expect", "types": [2, 3, 7], "t": 0.3}, {"do": "send", "pdu": "echo_rq"},
             fl, {"do": "drain", "t": 2 * t}, {"do": "close"}]
-    return {"role": "acceptor", "exch": "flood", "budget": None, "ae": ae, "peer": peer, "user": [], "flood_after_abort": True,
+    user = []
+    if role == "requestor":
+        # the local user aborts the association it requested (AA-1 in Sta6: the ARTIM timer has never run on this
+        # side) while the peer is already streaming - non-final command fragments when `pdu` is "echo_rq"
+        if pdu == "echo_rq":
+            fl = dict(fl, pdu="raw", hex="0400" + "00000008" + "00000004" + "0101" + "0000")
+        peer = [{"do": "expect", "types": [1], "t": 1.0}, {"do": "send", "pdu": "ac"}, fl, {"do": "drain", "t": 2 * t}, {"do": "close"}]
+        user = [{"op": "sleep", "d": t / 2}, {"op": "abort"}]
+    return {"role": role, "exch": "flood", "budget": None, "ae": ae, "peer": peer, "user": user, "flood_after_abort": True,
             "sched": sched or {"switch_pct": 30}, "net": {"seg": "whole", "recv_cost": 0.001}}
 
 
@@ -127,6 +135,7 @@ def directed(tier):
         for gap in (0.0003, 0.0008):
             for pdu in ("echo_rq", "rq", "unknown"):
                 out.append(_flood_after_abort(t, gap, pdu=pdu))
+                out.append(_flood_after_abort(t, gap, pdu=pdu, role="requestor"))
     # peer accepts the association and then neither reads nor writes: a C-STORE larger than the connection's
     # buffering blocks in send()
     ac_len = boundaries("requestor", "store")[0]
@@ -149,7 +158,7 @@ def gen(rng, idx, tier):
     k = rng.randrange(0, total + 1)
     if rng.randrange(12) == 0:
         return _flood_after_abort(rng.choice([0.05, 0.1]), rng.choice([0.0002, 0.0005, 0.0009]), sched=C.gen_sched(rng),
-                                  pdu=rng.choice(["echo_rq", "rq", "unknown"]))
+                                  pdu=rng.choice(["echo_rq", "rq", "unknown"]), role=rng.choice(["acceptor", "requestor"]))
     size, cap = 300, None
     if rng.randrange(4) == 0:
         size, cap = rng.choice([3000, 20000, 70000]), rng.choice([256, 1024, 4096, 16384])
